@@ -291,6 +291,7 @@ CasesOf(V) ==
                                           /\ (x[1] = "full" \/ ~\E q \in V.mwmin : IsPrefix(q, V.leaves[x[2]].p))}}
     \cup {MkCase(V, "full", "emb", V.leaves[j].p, j, "env", TRUE) : j \in {i \in 1..n : /\ V.leaves[i].k = "str" /\ V.leaves[i].fl = "opt"
                                                                                             /\ ~\E b \in 1..Len(V.bads) : V.bads[b].p = V.leaves[i].p}}
+    \cup {MkCase(V, "full", "emblist", V.leaves[j].p, j, "env", TRUE) : j \in {i \in 1..n : V.leaves[i].k = "strlist"}}
     \cup {MkCase(V, "full", "phnokey", V.leaves[j].p, j, "property", TRUE) : j \in {i \in 1..n : V.leaves[i].k = "str"}}
     \cup {MkCase(V, "full", "absent", V.leaves[j].p, j, "", TRUE) : j \in {i \in 1..n : V.leaves[i].fl # "fix"}}
     \cup {MkCase(V, b, "dropcomp", <<"pools", pi, comp>>, 0, "", TRUE) : <<b, pi, comp>> \in Bases \X {"#1", "#2"} \X PoolComponents}
@@ -307,11 +308,12 @@ Delta(c) ==
          [] c.kind = "range"     -> [set |-> <<[p |-> c.p, t |-> RT(V.bads[c.i].k), v |-> V.bads[c.i].r]>>, del |-> <<>>]
          [] c.kind = "ph"        -> [set |-> <<[p |-> c.p, t |-> "str", v |-> IF c.src = "env" THEN "${env:VERIF_PH}" ELSE "${property:@PROPS@#VERIF_PH}"]>>,
                                      del |-> <<>>]
+         [] c.kind = "emblist"   -> [set |-> <<[p |-> c.p, t |-> "list", v |-> "[User-Agent: ${env:VERIF_PH}]|[X-Other: y]"]>>, del |-> <<>>]  \* docs/eng/config.md
          [] c.kind = "phnokey"   -> [set |-> <<[p |-> c.p, t |-> "str", v |-> "${property:@PROPS@}"]>>, del |-> <<>>]   \* no '#key'
          [] c.kind = "emb"       -> [set |-> <<[p |-> c.p, t |-> "str", v |-> "pre-${env:VERIF_PH}-post"]>>, del |-> <<>>]
          [] c.kind \in {"absent", "dropcomp"} -> [set |-> <<>>, del |-> <<c.p>>]
          [] OTHER                -> [set |-> <<>>, del |-> <<>>]
-PhValue(c) == IF c.kind = "ph" THEN Variants[VarByName(c.v)].leaves[c.i].r ELSE IF c.kind = "emb" THEN "mid" ELSE ""
+PhValue(c) == IF c.kind = "ph" THEN Variants[VarByName(c.v)].leaves[c.i].r ELSE IF c.kind \in {"emb", "emblist"} THEN "mid" ELSE ""
 
 BaseEntries(V, base) ==
     LET ls == SelectSeq([j \in 1..Len(V.leaves) |-> [p |-> V.leaves[j].p, t |-> RT(V.leaves[j].k), v |-> V.leaves[j].r, g |-> Given(V, base, j)]],
@@ -351,6 +353,7 @@ ValueOf(c, via, V, j) ==
     IF c.kind = "absent" /\ IsPrefix(c.p, lf.p) THEN DocDefault(lf, via)
     ELSE IF c.kind = "ph" /\ c.i = j THEN lf.f
     ELSE IF c.kind = "emb" /\ c.i = j THEN "pre-mid-post"
+    ELSE IF c.kind = "emblist" /\ c.i = j THEN "[User-Agent: mid]|[X-Other: y]"
     ELSE IF c.base = "min" /\ \E q \in V.mwmin : IsPrefix(q, lf.p) THEN "*"      \* the list element does not exist at all
     ELSE IF Given(V, c.base, j) THEN lf.f
     ELSE DocDefault(lf, via)
@@ -382,7 +385,7 @@ Typed == Done /\ cs.kind = "wrongtype" => err
 \* a value violating a documented constraint is an error; so is leaving out something required
 Constrained == Done /\ (cs.kind \in {"range", "dropcomp"} \/ (cs.kind = "absent" /\ TheV.leaves[cs.i].fl = "req")) => err
 \* a placeholder naming an unset variable / missing property is an error; a set one is not
-Placeholders == /\ (Done /\ cs.kind \in {"ph", "emb"} => (err <=> ~cs.set))
+Placeholders == /\ (Done /\ cs.kind \in {"ph", "emb", "emblist"} => (err <=> ~cs.set))
                 /\ (Done /\ cs.kind = "phnokey" => err)      \* a malformed property placeholder is an error (not a crash)
 \* nothing else fails
 NoSpuriousError == Done /\ (cs.kind = "none" \/ (cs.kind = "absent" /\ TheV.leaves[cs.i].fl = "opt")) => ~err
@@ -390,11 +393,13 @@ NoSpuriousError == Done /\ (cs.kind = "none" \/ (cs.kind = "absent" /\ TheV.leav
 DefaultsKept == Done /\ ~err =>
     \A j \in 1..Len(TheV.leaves) :
         LET lf == TheV.leaves[j]
-            given == /\ (Given(TheV, cs.base, j) \/ (cs.kind \in {"ph", "emb"} /\ cs.i = j))
+            given == /\ (Given(TheV, cs.base, j) \/ (cs.kind \in {"ph", "emb", "emblist"} /\ cs.i = j))
                      /\ ~(cs.kind = "absent" /\ IsPrefix(cs.p, lf.p))
                      /\ (cs.base = "full" \/ ~\E q \in TheV.mwmin : IsPrefix(q, lf.p))
             v == ValueOf(cs, via, TheV, j)
-        IN IF given THEN v = (IF cs.kind = "emb" /\ cs.i = j THEN "pre-mid-post" ELSE lf.f)
+        IN IF given THEN v = (CASE cs.kind = "emb" /\ cs.i = j -> "pre-mid-post"
+                                [] cs.kind = "emblist" /\ cs.i = j -> "[User-Agent: mid]|[X-Other: y]"
+                                [] OTHER -> lf.f)
            ELSE IF cs.base = "min" /\ \E q \in TheV.mwmin : IsPrefix(q, lf.p) THEN TRUE
            ELSE IF lf.p[Len(lf.p)] = "discard_overflow" THEN (via = "cli" => v = "true")
            ELSE v = lf.d
